@@ -618,6 +618,24 @@ func (a *Arith) axioms(form Lin, seen map[string]bool) []Ineq {
 					down++
 				}
 			}
+			// a counter of the passes of a range-over-map loop (0 at entry, +1 on every back edge) is bounded by the
+			// number of entries, provided the loop cannot change the map: i <= len(m), and i <= len(m)-1 inside a pass
+			if mp := a.mapRangeCounter(x); mp != nil {
+				ml := a.lenLin(mp, 0)
+				inBody := false
+				for _, f := range a.curFacts {
+					if ex, isEx := f.Cond.(*ssa.Extract); isEx && f.Holds && ex.Index == 0 {
+						if nx, isNx := ex.Tuple.(*ssa.Next); isNx && nx.Block() == x.Block() {
+							inBody = true
+						}
+					}
+				}
+				if inBody {
+					out = append(out, mkIneq(linAtom(k).add(ml, -1), -1))
+				} else {
+					out = append(out, mkIneq(linAtom(k).add(ml, -1), 0))
+				}
+			}
 			if okInd && len(inits) == 1 && (up == 0) != (down == 0) {
 				if up > 0 { // phi >= init
 					out = append(out, mkIneq(inits[0].add(linAtom(k), -1), 0))
@@ -1385,4 +1403,69 @@ func (m *Model) guardedLifting(in ssa.Instruction, guard func(b *ssa.BasicBlock)
 		return false, m.InstrPos(in)
 	}
 	return true, ""
+}
+
+// mapRangeCounter: phi is a counter of the passes of a range-over-map loop — it sits in the loop header next to
+// the iterator's Next, is 0 on every entry edge and phi+1 on every back edge — and the loop body cannot change
+// any map (no map update, no call other than len/cap/append/copy/min/max). Returns the ranged map.
+func (a *Arith) mapRangeCounter(phi *ssa.Phi) ssa.Value {
+	hdr := phi.Block()
+	var mp ssa.Value
+	for _, in := range hdr.Instrs {
+		if nx, ok := in.(*ssa.Next); ok && !nx.IsString {
+			if rg, ok := nx.Iter.(*ssa.Range); ok {
+				if _, isMap := rg.X.Type().Underlying().(*types.Map); isMap {
+					mp = rg.X
+				}
+			}
+		}
+	}
+	if mp == nil {
+		return nil
+	}
+	var li *loopInfo
+	for _, l := range naturalLoops(phi.Parent()) {
+		if l.header == hdr {
+			li = l
+		}
+	}
+	if li == nil {
+		return nil
+	}
+	for i, e := range phi.Edges {
+		if li.body[hdr.Preds[i]] {
+			bo, ok := e.(*ssa.BinOp)
+			if !ok || bo.Op != token.ADD {
+				return nil
+			}
+			c, isC := bo.Y.(*ssa.Const)
+			if bo.X != ssa.Value(phi) || !isC || c.Value == nil || c.Int64() != 1 {
+				return nil
+			}
+		} else {
+			c, isC := e.(*ssa.Const)
+			if !isC || c.Value == nil || c.Int64() != 0 {
+				return nil
+			}
+		}
+	}
+	for b := range li.body {
+		for _, in := range b.Instrs {
+			switch x := in.(type) {
+			case *ssa.MapUpdate, *ssa.Go, *ssa.Defer:
+				return nil
+			case *ssa.Call:
+				bi, ok := x.Call.Value.(*ssa.Builtin)
+				if !ok {
+					return nil
+				}
+				switch bi.Name() {
+				case "len", "cap", "append", "copy", "min", "max":
+				default:
+					return nil
+				}
+			}
+		}
+	}
+	return mp
 }
